@@ -291,3 +291,11 @@ Lemma held_model_seeded :
   held_model packetdump_rtcp_check_hcfg 0 PRtp [PRtp; PRtcp; PRtp] [PRtcp] = [1; 0; 2; 1; 0; 0; 0; 1; 0; 0] /\
   held_codes 0 1 0 (held_model packetdump_rtcp_check_hcfg 0 PRtcp [PRtp] []) = [].
 Proof. vm_compute. repeat split; reflexivity. Qed.
+
+Lemma unwakeable_sender_stranded c t p s :
+  kind_of c p <> SSelect -> hloop s = LGone -> pfind t (hparked s) = Some p ->
+  forall cont s', hrun c s cont = Some s' -> pfind t (hparked s') = Some p.
+Proof. intros K L P. exact (stuck_for_ever c t p s K (conj L P)). Qed.
+
+Lemma hsafe_instances : forallb hsafe [packetdump_hcfg; twcc_hcfg; rfc8888_hcfg] = true.
+Proof. reflexivity. Qed.
